@@ -437,6 +437,10 @@ type Contract struct {
 	Ghost      []string
 	Timeout    int
 	OnCalls    map[string]*OnCall
+	Auto       bool // generated by a sweep directive: uncontracted callees are opaque, never inlined
+	NoTypeInv  bool
+	OvfCheck   bool
+	AssumeInv  bool // type-invariant postconditions of this unit are assumed, not proved (listed)
 }
 
 type Pred struct {
@@ -463,16 +467,31 @@ type Lemma struct {
 	Line  int
 }
 
+type SweepSpec struct {
+	Pkg     string
+	Pattern string
+	Props   []string
+	Exclude []string
+}
+
+type TypeInv struct {
+	Pkg  string
+	Type string
+	Pred string
+}
+
 type SpecDB struct {
 	Contracts map[string]*Contract
 	Preds     map[string]*Pred
 	Lemmas    []*Lemma
 	Files     []string
+	Sweeps    []*SweepSpec
+	TypeInvs  []*TypeInv
 }
 
 var clauseKeywords = map[string]bool{"func": true, "requires": true, "ensures": true, "modifies": true, "allocbound": true,
 	"loop": true, "mode": true, "trusted": true, "prop": true, "pred": true, "lemma": true, "pure": true, "inline": true,
-	"split": true, "noverify": true, "ghost": true, "timeout": true, "opaque": true, "recpred": true, "oncall": true}
+	"split": true, "noverify": true, "ghost": true, "timeout": true, "opaque": true, "recpred": true, "oncall": true, "sweep": true, "typeinv": true, "notypeinv": true, "ovfcheck": true, "assumeinv": true}
 
 // LoadSpecs parses every verif_contracts*.go in dir (package name pkg).
 func LoadSpecs(db *SpecDB, dir, pkg string) error {
@@ -556,6 +575,23 @@ func loadSpecFile(db *SpecDB, file, pkg string) error {
 			} else {
 				cur.Props = ps
 			}
+		case "sweep":
+			cur = nil
+			fs := strings.Fields(rest)
+			sw := &SweepSpec{Pkg: pkg, Pattern: fs[0], Props: curProps}
+			for _, f := range fs[1:] {
+				if strings.HasPrefix(f, "-") {
+					sw.Exclude = append(sw.Exclude, f[1:])
+				}
+			}
+			db.Sweeps = append(db.Sweeps, sw)
+		case "typeinv":
+			cur = nil
+			fs := strings.Fields(rest)
+			if len(fs) != 2 {
+				return fmt.Errorf("%s:%d: typeinv Type Pred", file, rl.line)
+			}
+			db.TypeInvs = append(db.TypeInvs, &TypeInv{Pkg: pkg, Type: fs[0], Pred: fs[1]})
 		case "func":
 			key := pkg + "." + rest
 			if _, dup := db.Contracts[key]; dup {
@@ -611,6 +647,12 @@ func loadSpecFile(db *SpecDB, file, pkg string) error {
 				cur.NoVerify = true
 			case "pure":
 				cur.Pure = true
+			case "notypeinv":
+				cur.NoTypeInv = true
+			case "ovfcheck":
+				cur.OvfCheck = true
+			case "assumeinv":
+				cur.AssumeInv = true
 			case "inline":
 				cur.Inline = true
 			case "opaque":
